@@ -340,6 +340,33 @@ def rule_ambient_py(ctx, px):
     ctx.floor(R, n, 18)
 
 
+def _unique_language_match(px, reason):
+    """The hash-ordered list of non-target languages is harmless only while a language-bound callable can match *one*
+    language: handle_conventional_methods takes the first language that matches and the order of that list is the set order.
+    Structural condition: every selection test in its loop over the supported languages is an equality comparison of the
+    language's package name (a prefix / containment / regex match lets `nunavut.lang.c` claim the callables of
+    `nunavut.lang.cpp`, and which one wins then depends on PYTHONHASHSEED)."""
+    try:
+        f = px.func("nunavut._templates", "LanguageEnvironment.handle_conventional_methods")
+    except AnalysisError:
+        return False, "anchor missing: LanguageEnvironment.handle_conventional_methods"
+    params = [a.arg for a in f.node.args.args]
+    loops = [n for n in ast.walk(f.node) if isinstance(n, ast.For) and isinstance(n.iter, ast.Name) and n.iter.id in params]
+    if not loops:
+        return False, "anchor changed: no loop over the supported languages in handle_conventional_methods"
+    for lp in loops:
+        lv = lp.target.id if isinstance(lp.target, ast.Name) else None
+        tests = [n.test for n in ast.walk(lp) if isinstance(n, ast.If) and lv in {x.id for x in ast.walk(n.test) if isinstance(x, ast.Name)}]
+        if not tests:
+            return False, "anchor changed: no language selection test in the loop"
+        for t in tests:
+            ok = isinstance(t, ast.Compare) and len(t.ops) == 1 and isinstance(t.ops[0], ast.Eq)
+            if not ok:
+                return False, (f"a language-bound callable is matched with `{ast.unparse(t)}` instead of an equality on the package name: more than "
+                               "one language can match (nunavut.lang.c is a prefix of nunavut.lang.cpp) and the first in hash order wins")
+    return True, reason + "; a callable matches exactly one language (equality on the package name)"
+
+
 def rule_order(ctx, px, ts):
     R = "R-C07-ORDER"
     ctx.rule(
@@ -471,7 +498,10 @@ def rule_order(ctx, px, ts):
                 if wrapped:
                     ctx.ob(R, f.module.rel, construct, True, "order erased by sorted()/set()/aggregate", node.lineno)
                 elif key in ACCEPT:
-                    ctx.ob(R, f.module.rel, construct, True, ACCEPT[key], node.lineno)
+                    okj, whyj = True, ACCEPT[key]
+                    if key[0] == "LanguageContextBuilder._new_language_map":
+                        okj, whyj = _unique_language_match(px, ACCEPT[key])
+                    ctx.ob(R, f.module.rel, construct, okj, whyj, node.lineno)
                 else:
                     ctx.ob(R, f.module.rel, construct, False,
                            "iteration over a hash-ordered collection is neither sorted nor classified as order-irrelevant",
